@@ -217,6 +217,9 @@ class FormatMachine(MachineBase):
         path = self.path(op)
         before = self.fs.get(path)
         verdict, why = (UNSPEC, "tainted") if s.tainted else self.validity(s)
+        # how much of what the generators produce lies inside the quantifiers (a generator that drifts into invalid or
+        # unspecified content silently weakens every oracle behind it): reported with the reach probes
+        CTX.probe("verdict.%s.%s" % (self.FORMAT, verdict if not s.tainted else "tainted"))
         mark = len(self.fs.trace)
         try:
             if op.get("to") == "handle" and verdict == VALID:
@@ -253,7 +256,10 @@ class FormatMachine(MachineBase):
         if self.watching("C08") and verdict == VALID and before is not None and op.get("to") != "handle" and not ambiguous:
             # the bytes at the destination are a function of the content alone, whatever was at that path before: the same
             # call aimed at a path where nothing was yet writes the same bytes
-            fresh = path + ".c08-fresh"
+            # (...nor on what the destination is CALLED: every third time the fresh path carries a name ending some tools
+            # treat specially)
+            sfx = ["", "", "", ".gz", ".bz2", ".bak~"][mark % 6]
+            fresh = path + ".c08-fresh" + sfx
             self.fs.remove(fresh)
             try:
                 self.do_dump(s, fresh, op)
@@ -264,8 +270,9 @@ class FormatMachine(MachineBase):
                 again = None
             self.fs.remove(fresh)
             if again is not None and again != after:
-                raise Violation("C08", "C08.bytes_independent_of_previous_file", "bytes-depend-on-previous-file/%s" % self.FORMAT,
-                                {"diff": _text_diff(again.decode("utf-8", "replace"), text)})
+                raise Violation("C08", "C08.bytes_independent_of_previous_file",
+                                "bytes-depend-on-%s/%s" % ("destination-name" if sfx else "previous-file", self.FORMAT),
+                                {"diff": _text_diff(again.decode("utf-8", "replace"), text), "suffix": sfx})
         if verdict == VALID:
             self.count("C06", ["valid-written", self.FORMAT, self.abstract(s)])
         self.check_canonical(text)
